@@ -31,6 +31,7 @@ struct AResult {
   std::string tokens;      // emitTokens
   std::string err;         // e.what()
   long layoutSteps = 0;
+  long headerBytes = -1;    // programSizeBytes as CodeGen computed it (what emitBin writes into the header, in bytes)
 };
 enum AMode { A_BIN = 1, A_FILE = 2, A_LISTING = 4, A_TOKENS = 8 };
 AResult assemble_text(const std::string &src, int modes, const std::string &outFile = "");
